@@ -178,11 +178,11 @@ what the model in this file transliterates. A structural edit of any of these fu
 check searching for a failing input. -/
 theorem C09_wiring :
     Sso.Generated.skel_auth_authenticate =
-      ["call:NewLogEntry", "call:getRemoteAddr", "call:LoadSession", "if{", "call:WithRemoteAddress", "call:Error", "call:ClearSession", "return", "}", "call:LifetimePeriodExpired", "if{", "call:WithUser", "call:Info", "call:ClearSession", "return", "}", "call:RefreshPeriodExpired", "if{", "call:RefreshSessionIfNeeded", "if{", "call:WithUser", "call:Error", "call:ClearSession", "return", "}", "if{", "call:WithUser", "call:Error", "call:ClearSession", "return", "}", "call:SaveSession", "if{", "call:WithUser", "call:Error", "call:ClearSession", "return", "}", "}", "else{", "call:ValidateSessionState", "if{", "call:WithRemoteAddress", "call:WithUser", "call:Error", "call:ClearSession", "return", "}", "call:SaveSession", "if{", "call:WithUser", "call:Error", "call:ClearSession", "return", "}", "}", "call:RunValidators", "call:len", "call:len", "if{", "call:Sprintf", "call:WithUser", "call:Info", "return", "}", "call:Sprintf", "call:WithRemoteAddress", "call:WithUser", "call:Info", "return"] ∧
+      ["call:getRemoteAddr", "call:LoadSession", "if{", "call:ClearSession", "return", "}", "call:LifetimePeriodExpired", "if{", "call:ClearSession", "return", "}", "call:RefreshPeriodExpired", "if{", "call:RefreshSessionIfNeeded", "if{", "call:ClearSession", "return", "}", "if{", "call:ClearSession", "return", "}", "call:SaveSession", "if{", "call:ClearSession", "return", "}", "}", "else{", "call:ValidateSessionState", "if{", "call:ClearSession", "return", "}", "call:SaveSession", "if{", "call:ClearSession", "return", "}", "}", "call:RunValidators", "call:len", "call:len", "if{", "return", "}", "return"] ∧
     Sso.Generated.skel_auth_SignIn =
-      ["call:getProxyHost", "call:Sprintf", "call:authenticate", "switch{", "case nil{", "call:ProxyOAuthRedirect", "}", "case http.ErrNoCookie{", "call:SignInPage", "}", "case providers.ErrTokenRevoked{", "call:ClearSession", "call:SignInPage", "}", "case sessions.ErrLifetimeExpired,sessions.ErrInvalidSession{", "call:ClearSession", "call:SignInPage", "}", "default{", "call:append", "call:Incr", "call:Error", "call:codeForError", "call:ErrorResponse", "}", "}"] ∧
+      ["call:getProxyHost", "call:authenticate", "switch{", "case nil{", "call:ProxyOAuthRedirect", "}", "case http.ErrNoCookie{", "call:SignInPage", "}", "case providers.ErrTokenRevoked{", "call:ClearSession", "call:SignInPage", "}", "case sessions.ErrLifetimeExpired,sessions.ErrInvalidSession{", "call:ClearSession", "call:SignInPage", "}", "default{", "call:Error", "call:codeForError", "call:ErrorResponse", "}", "}"] ∧
     Sso.Generated.skel_auth_ProxyOAuthRedirect =
-      ["call:ParseForm", "if{", "call:Error", "call:ErrorResponse", "return", "}", "call:Get", "if{", "call:append", "call:Incr", "call:ErrorResponse", "return", "}", "call:Get", "if{", "call:append", "call:Incr", "call:ErrorResponse", "return", "}", "call:Parse", "if{", "call:append", "call:Incr", "call:ErrorResponse", "return", "}", "call:MarshalSession", "if{", "call:append", "call:Incr", "call:Error", "call:ErrorResponse", "return", "}", "call:string", "call:getAuthCodeRedirectURL", "if{", "call:append", "call:Incr", "call:Error", "call:ErrorResponse", "return", "}", "call:Redirect"] := by decide
+      ["call:ParseForm", "if{", "call:Error", "call:ErrorResponse", "return", "}", "call:Get", "if{", "call:ErrorResponse", "return", "}", "call:Get", "if{", "call:ErrorResponse", "return", "}", "call:Parse", "if{", "call:ErrorResponse", "return", "}", "call:MarshalSession", "if{", "call:Error", "call:ErrorResponse", "return", "}", "call:string", "call:getAuthCodeRedirectURL", "if{", "call:Error", "call:ErrorResponse", "return", "}", "call:Redirect"] := by decide
 
 /-! ### Histories at the authenticator -/
 
